@@ -37,6 +37,7 @@ func diffProg(w *fw.Worker, sub, src string, prog *pt.Prog, inputs []string) (v 
 				w.Count("ref-skip:latitude-static", 1)
 			} else {
 				w.Count("ref-skip:ill-typed", 1)
+				w.Count("ref-skip:ill-typed:"+sub, 1)
 			}
 		}
 		return nil, true
